@@ -679,3 +679,71 @@ def uses_fresh(spec):
     if spec[0] == "Lit" and FRESH_TOKEN in spec[1]:
         return True
     return any(uses_fresh(c) for _, c in children(spec))
+
+
+# ------------------------------------------------------------------------------------------------------------
+# membership: is a Python value an instance of the type a meaning denotes?  (three-valued: True / False / None = not modelled)
+# Used by the behavioural leg: dumping a value that is not of the requested type is not specified, so only values for which
+# this returns True are compared between the dumpers of equivalent hints.
+
+_SCALARS = {"int": int, "bool": bool, "str": str, "bytes": bytes, "float": float}
+_SEQ = {"list": list, "set": set, "frozenset": frozenset, "deque": collections.deque}
+_MAP = {"dict": dict, "defaultdict": collections.defaultdict, "OrderedDict": collections.OrderedDict}
+_USER_FIELDS = {"G": ("x",), "GB": ("x",), "GC": ("x",), "GP": ("x",), "GPB": ("x",), "GPC": ("x",), "G2": ("k", "b")}
+
+
+def _all3(results):
+    out = True
+    for r in results:
+        if r is False:
+            return False
+        if r is None:
+            out = None
+    return out
+
+
+def belongs(v, m):  # noqa: C901, PLR0911, PLR0912
+    k = m[0]
+    if k == "any":
+        return True
+    if k == "none":
+        return v is None
+    if k == "cls":
+        if m[1] in _SCALARS:
+            return type(v) is _SCALARS[m[1]]
+        return type(v) is LEAVES[m[1]]
+    if k == "lit":
+        if isinstance(v, enum.Enum):
+            return any(kind == "enum" and LIT_TOKENS[tok] is v for kind, tok in m[1])
+        return type(v) in (int, bool, str, bytes) and (type(v).__name__, repr(v)) in m[1]
+    if k == "union":
+        results = [belongs(v, alt) for alt in m[1]]
+        if any(r is True for r in results):
+            return True
+        return None if any(r is None for r in results) else False
+    if k == "ann":
+        return belongs(v, m[1])
+    if k == "tup":
+        return type(v) is tuple and len(v) == len(m[1]) and _all3(belongs(x, a) for x, a in zip(v, m[1]))
+    if k == "vtup":
+        return type(v) is tuple and _all3(belongs(x, m[1]) for x in v)
+    if k == "gen":
+        name, args = m[1], m[2]
+        if name in _SEQ:
+            return type(v) is _SEQ[name] and _all3(belongs(x, args[0]) for x in v)
+        if name in _MAP:
+            return type(v) is _MAP[name] and _all3(
+                _all3([belongs(key, args[0]), belongs(val, args[1])]) for key, val in v.items())
+        if name in _USER_FIELDS:
+            return type(v) is ORIGINS[name][0] and _all3(
+                belongs(getattr(v, f), a) for f, a in zip(_USER_FIELDS[name], args))
+        if name == "type":
+            if not isinstance(v, type):
+                return False
+            if args[0][0] == "any":
+                return True
+            if args[0][0] == "cls":
+                return v is (_SCALARS.get(args[0][1]) or LEAVES[args[0][1]])
+            return None
+        return None
+    return None
